@@ -186,6 +186,10 @@ class Interp:
             return real, sh
         if expk == 'exc':
             if also is None:
+                pr = C.parse(text)
+                if pr.error or C.compiles(text)[0] is None:
+                    # accepted although it had to be refused, *and* what came back does not even compile
+                    ev.flags.add('result-uncompilable')
                 self.violation(ev, 'missing-exception:' + '|'.join(exp), 'returned %r' % text)
                 return real, S.Raw(text)
             exp = also
